@@ -151,6 +151,15 @@ class S(explore.Spec):
     return probs
 
 
+UI1 = [T(["S", i, "*"]) for i in ("9", "10", "08", "x")] + \
+      [T(["P", i, "s+", "*"]) for i in ("9", "10")] + [T(["L", "9", "+", "10", "-", "*"])]
+UI2 = [T(["S", i, "4", "*"]) for i in ("9", "10", "08", "x")] + \
+      [T(["E", i, "s+", "t-", "0", "1", "0", "1", "*"]) for i in ("9", "10")] + \
+      [T(["U", "11", "9 10"])]
+S(name="c09.int1", universe=UI1, version="gfa1", rename_targets=("9", "10", "100"),
+  lookups=["9", "10", "08", "8", "100", "x", "*"])
+S(name="c09.int2", universe=UI2, version="gfa2", rename_targets=("9", "10", "100"),
+  lookups=["9", "10", "08", "8", "100", "11", "x", "*"])
 S(name="c09.g1", universe=U1, version="gfa1", rename_targets=tuple(IDS))
 S(name="c09.g2", universe=U2, version="gfa2", rename_targets=tuple(IDS))
 
@@ -166,8 +175,9 @@ def run(ctx):
       "left open: re-adding an equal/complement link, multi-line groups and "
       "renaming a group onto another group's id (both merges are documented), "
       "renaming onto an identifier that is only mentioned (placeholder)"]
-  plan = [("c09.g1", 3), ("c09.g2", 3)] if ctx.quick else \
-         [("c09.g1", 4), ("c09.g2", 4)]
+  plan = [("c09.g1", 3), ("c09.g2", 3), ("c09.int1", 3), ("c09.int2", 3)] \
+      if ctx.quick else \
+         [("c09.g1", 4), ("c09.g2", 4), ("c09.int1", 5), ("c09.int2", 5)]
   if ctx.slice:
     plan = [(n, max(2, d - 2)) for n, d in plan[:2]]
   done = {}
